@@ -578,6 +578,8 @@ func propC02(c *Ctx) {
 		rulePendingErrPerHandler(c, rpe)
 		rcb := c.Rule("counter-balance", "a function that increments a nesting counter of the compiler or optimizer (try depth, loop depth, expression level) decrements it again on every path to a successful return", 2)
 		ruleCounterBalance(c, rcb)
+		rbc := c.Rule("blank-never-const", "the blank identifier is never made a constant symbol: it can be declared again in the same scope", 2)
+		ruleBlankNeverConst(c, rbc)
 		rfc := c.Rule("free-const", "the symbol of a captured variable inherits the Constant flag: a constant cannot be assigned from inside a function literal", 1)
 		ruleFreeConst(c, rfc)
 		rdf := c.Rule("define-fresh", "a := declaration of a local is always compiled to OpDefineLocal, never to an assignment opcode: one fresh variable per executed declaration", 1)
